@@ -41,7 +41,7 @@ fn kind_of(d: &Desc) -> String {
 }
 
 fn is_option(d: &Desc) -> bool {
-    matches!(d, Desc::OptVecU64(_) | Desc::OptBytes(_) | Desc::OptStr(_) | Desc::OptU64(_) | Desc::OptOptVecU64(_) | Desc::OptOptStr(_) | Desc::OptInt(_) | Desc::OptBv(_))
+    matches!(d, Desc::OptVecU64(_) | Desc::OptBytes(_) | Desc::OptStr(_) | Desc::OptU64(_) | Desc::OptOptVecU64(_) | Desc::OptOptStr(_) | Desc::OptInt(_) | Desc::OptBv(_) | Desc::OptSparse(_) | Desc::OptRl(_) | Desc::OptWm(_))
 }
 
 fn check_prefix(ctx: &mut Ctx, d: &Desc, x: &dyn catalogue::Ser, bytes: &[u8], cut: usize) {
